@@ -476,32 +476,19 @@ func (r *rewriter) rewriteIter(c *astutil.Cursor, pkg loader.Pkg) bool {
 			))
 		}
 		return true
-	case *ast.StructType:
-		// an embedded co.Iter[T] is the field Iter (b.Iter, Box{Iter: it}),
-		// keep that name when the type becomes seq.Iterator[T] (its fields have been visited by now)
-		for _, f := range n.Fields.List {
-			if len(f.Names) == 0 && r.isRewrittenIter(f.Type) {
-				f.Names = []*ast.Ident{X.Ident(cstAPIReturnType)}
+	case *ast.Ident:
+		// an embedded co.Iter[T] is the field Iter (b.Iter, Box{Iter: it}), embedding seq.Iterator[T] instead
+		// (which keeps the promoted MoveNext / Current) makes it the field Iterator: rename the references
+		if field, _ := pkg.TypeInfo().Uses[n].(*types.Var); field != nil && field.Embedded() && n.Name == cstAPIReturnType {
+			ty := field.Type()
+			if ptr, ok := ty.(*types.Pointer); ok {
+				ty = ptr.Elem()
+			}
+			if r.isIterator(ty) {
+				n.Name = cstIterator
 			}
 		}
 		return true
 	}
 	return true
-}
-
-// seq.Iterator[T] or *seq.Iterator[T] generated by rewriteIter (seq is imported by a reserved name)
-func (r *rewriter) isRewrittenIter(ty ast.Expr) bool {
-	if star, ok := ty.(*ast.StarExpr); ok {
-		ty = star.X
-	}
-	idx, _ := ty.(*ast.IndexExpr)
-	if idx == nil {
-		return false
-	}
-	sel, _ := idx.X.(*ast.SelectorExpr)
-	if sel == nil || sel.Sel.Name != cstIterator {
-		return false
-	}
-	x, _ := sel.X.(*ast.Ident)
-	return x != nil && x.Name == r.seqImportedName
 }
